@@ -60,6 +60,14 @@ def eff_case(mc, i):
     c["constraints"] = c["constraints"] + st.get("extra", [])
     if st.get("param_values") is not None:
         c["param_values"] = st["param_values"]
+    if st.get("ode_override") is not None:
+        # set_der given again on this clone only: replaces the rule of one state object
+        from ..cases import nslots
+        j = st["ode_override"]["obj"]
+        off = nslots(c["states"][:j])
+        c["ode"] = list(c["ode"])
+        for k, e in enumerate(st["ode_override"]["exprs"]):
+            c["ode"][off + k] = e
     return c
 
 
@@ -104,6 +112,14 @@ def gen_multi(rng, opts):
     if mode != "direct":
         mc["template"] = gen_stage_case(rng, opts)
         mc["decoy"] = rng.random() < 0.5
+        if rng.random() < 0.4:
+            # time-invariant dynamics (no template symbol inside the rules: nothing for clone() to rewrite)
+            tc = mc["template"]
+            syms = gen.sym_list(tc, ["x", "u", "p", "pc", "pp", "v", "vc", "vp"] + (["z"] if tc.get("algebraics") else []))
+            tc["ode"] = [gen.rand_poly(rng, syms, 2) for _ in tc["ode"]]
+            for q in range(tc.get("n_explicit_quad", 0)):
+                tc["quad"][q] = gen.rand_poly(rng, syms, 2)
+            tc["_time_invariant"] = True
     for i in range(k):
         if mode == "direct" or (mode == "mixed" and i % 2 == 1):
             mc["stages"].append({"case": gen_stage_case(rng, opts)})
@@ -127,7 +143,16 @@ def gen_multi(rng, opts):
     for j in range(mc["nmv"]):
         # make sure every master variable occurs in the NLP
         mc["mobj"].append(["pow", ["mv", j], 2])
-    # post-clone edits: an extra constraint / other parameter values on one clone only
+    # post-clone edits: an extra constraint / other parameter values / another rule for one state on one clone only
+    clones = [st for st in mc["stages"] if st["case"] is None]
+    if clones and rng.random() < 0.5:
+        from ..cases import nslots as _ns
+        tc = mc["template"]
+        st = rng.choice(clones)
+        j = rng.randrange(len(tc["states"]))
+        syms = gen.sym_list(tc, ["x", "u", "p", "v"])
+        n = _ns([tc["states"][j]])
+        st["ode_override"] = {"obj": j, "exprs": [gen.rand_poly(rng, syms, 2) for _ in range(n)]}
     for st in mc["stages"]:
         if st["case"] is None and rng.random() < 0.4:
             tc = mc["template"]
@@ -181,7 +206,7 @@ def multi_coq(idx, mc, inputs):
         tin = next((inputs[i] for i, st in enumerate(mc["stages"]) if st["case"] is None), {})
     for i, st in enumerate(mc["stages"]):
         nm = "s%d_%d" % (idx, i)
-        plain = st["case"] is None and not st.get("extra") and st.get("param_values") is None
+        plain = st["case"] is None and not st.get("extra") and st.get("param_values") is None and st.get("ode_override") is None
         if plain:
             # grid inputs (growth factor, nodes, tau) do not depend on the horizon
             out.append("Definition t%d_%d : ocp := %s.\n" % (idx, i, CS.case_coq(mc["template"], inputs[i])))
@@ -276,6 +301,14 @@ def build_multi(mc, rockit):
                 s.subject_to(expr, **kwc)
             if st.get("param_values") is not None:
                 CS.apply_param_values(B, eff_case(mc, i))
+            if st.get("ode_override") is not None:
+                xo = tplB.objs["x"][st["ode_override"]["obj"]]
+                rhs = ca.vertcat(*[tplB.ex(e, s) for e in st["ode_override"]["exprs"]])
+                rhs = ca.reshape(rhs, xo.shape[0], xo.shape[1])
+                if mc["template"].get("discrete"):
+                    s.set_next(xo, rhs)
+                else:
+                    s.set_der(xo, rhs)
         Bs.append(B)
     # declaration order on the master: parameters and variables interleaved
     mv, mp = [], []
